@@ -431,7 +431,16 @@ def arm_conv(R, b, v, bs, sk, nf, a, f, container, where):
         R.bad("C11.CONV", body, "expected exactly one call of %s in the arm of `%s` (found %d, %d other user calls)%s" % (fn, f["ident"], len(calls), len(others), where), b.span)
         return
     how, cbb, u = calls[0]
-    if (how == "closure") != bool(conv["by_ref"]):
+    # by reference or by value: what the user function itself is handed (directly here, or inside the adapting closure)
+    if how == "closure":
+        cp = [cp_ for (cb_, cp_, u_) in closure_user if u_ is u][0]
+        cv_ = sk.closures[cp][0]
+        ua = cv_.blocks[u["bb"]]["term"]["args"]
+        passed_ref = bool(ua) and cv_.origin(ua[-1])[0] == "ref"
+    else:
+        ua = v.blocks[cbb]["term"]["args"]
+        passed_ref = bool(ua) and v.origin(ua[-1])[0] == "ref"
+    if passed_ref != bool(conv["by_ref"]):
         R.bad("C11.CONV", body, "by-reference flag of %s is not honoured%s" % (fn, where), b.span)
     # control dependence: only when the child succeeded
     if ok_t is None or not v.dominates(ok_t, cbb) or (err_t is not None and cbb in v.reachable(err_t) and not v.dominates(ok_t, cbb)):
